@@ -4498,9 +4498,12 @@ class Parameters:
         for k in args + ordering:
             if k in processed: continue
 
-            # Suppresses automatically generated names.
-            if k == 'name' and (values[k] is not None
-                                and re.match('^'+self.__class__.__name__+'[0-9]+$', values[k])):
+            # Suppresses automatically generated names (the class name and
+            # five digits; anything else is a name somebody chose). A name
+            # the constructor takes positionally is never left out.
+            if k == 'name' and k not in posargs and (
+                    values[k] is not None
+                    and _is_auto_name(self.__class__.__name__, values[k])):
                 continue
 
             value = pprint(values[k], imports, prefix=prefix,settings=[],
